@@ -3,7 +3,7 @@ import warnings
 
 DURS = [4, 'd', 'd*2', 8]
 MID = {4: 2, 'd': 'd/2', 'd*2': 'd', 8: 'd'}
-VALS = [0, 1, -1, 0.5, 2.25, 'a', 'v', 'v*2', 'a+b', 'w/4', 'x', 'y', 'a*x', 'b-c', '1/3', 'Max(a, b)', 3]
+VALS = [0, 1, -1, 0.5, 2.25, 0.30000000000000004, 0.3333333333333333, 'a', 'v', 'v*2', 'a+b', 'w/4', 'x', 'y', 'a*x', 'b-c', '1/3', 'Max(a, b)', 3]
 CONSTRAINTS = ['a < b', 'b <= c', 'd > 0', 'n >= 0', 'a + b == c', 'v*2 >= w', 'c > a']
 INTERP = ['hold', 'linear', 'jump', 'default']
 COUNTS = [2, 'n', 1, 0, 'n*2', 3, 'k']
@@ -394,9 +394,79 @@ def gen_store_case(rng, idx, tier):
             'flags': sorted(g.flags)}
 
 
+def _mutate_doc(x, rng, tag_of, applied):
+    """spell a valid document differently: omit optional arguments that have their default value, use the short forms
+    the constructors accept"""
+    if isinstance(x, list):
+        return [_mutate_doc(e, rng, tag_of, applied) for e in x]
+    if not isinstance(x, dict):
+        return x
+    out = {}
+    tag = tag_of.get(x.get('#type'), x.get('#type'))
+    for k, v in x.items():
+        if k == '#type':
+            out[k] = tag
+            continue
+        if k in ('measurements', 'parameter_constraints') and v == [] and rng.random() < 0.7:
+            applied.add('drop_empty' if rng.random() < 0.7 else 'null_list')
+            if 'null_list' in applied and rng.random() < 0.5:
+                out[k] = None
+            continue
+        if tag == 'Constant' and k == 'name' and v == 'constant_pulse' and rng.random() < 0.7:
+            applied.add('drop_name')
+            continue
+        if tag == 'Function' and k == 'channel' and v == 'default' and rng.random() < 0.7:
+            applied.add('drop_channel')
+            continue
+        if tag == 'ForLoop' and k == 'loop_range' and isinstance(v, list) and len(v) == 3 and v[2] == 1 and rng.random() < 0.8:
+            applied.add('range_short')
+            if v[0] == 0:
+                out[k] = rng.choice([[v[1]], v[1], [0, v[1]]])
+            else:
+                out[k] = [v[0], v[1]]
+            continue
+        if k == 'entries' and isinstance(v, dict):
+            out[k] = {c: [_mut_entry(e, rng, applied) for e in es] for c, es in v.items()}
+            continue
+        if k == 'time_point_tuple_list' and isinstance(v, list):
+            out[k] = [_mut_entry(e, rng, applied) for e in v]
+            continue
+        out[k] = _mutate_doc(v, rng, tag_of, applied)
+    return out
+
+
+def _mut_entry(e, rng, applied):
+    if isinstance(e, list) and len(e) == 3 and e[2] == 'hold':
+        r = rng.random()
+        if r < 0.4:
+            applied.add('short_entry')
+            return e[:2]
+        if r < 0.7:
+            applied.add('interp_default')
+            return [e[0], e[1], 'default']
+    return e
+
+
+def gen_doc_case(rng, store_case):
+    """documents produced by the implementation for a clean store case, re-spelled"""
+    import json
+    from qupulse.serialization import PulseStorage, DictBackend
+    from props import c10
+    tag_of = c10._tag_of_type()
+    objs = build(store_case['nodes'])
+    root = objs[store_case['roots'][0]]
+    b = DictBackend()
+    with warnings.catch_warnings():
+        warnings.simplefilter('ignore')
+        PulseStorage(b)[root.identifier] = root
+    applied = set()
+    docs = {k: _mutate_doc(json.loads(b[k]), rng, tag_of, applied) for k in sorted(b)}
+    return {'kind': 'doc', 'docs': docs, 'load': root.identifier, 'mut': '+'.join(sorted(applied)) or 'none'}
+
+
 def gen_cases(rng, tier, n_store=None, n_doc=None):
     if n_store is None:
-        n_store = 330 if tier == 'quick' else 3000
+        n_store = 300 if tier == 'quick' else 3000
     cases = []
     tries = 0
     while len(cases) < n_store and tries < n_store * 4:
@@ -405,4 +475,16 @@ def gen_cases(rng, tier, n_store=None, n_doc=None):
             cases.append(gen_store_case(rng, len(cases), tier))
         except Exception:   # noqa  generator produced an invalid template (rejected by a constructor): skip
             continue
-    return cases
+    if n_doc is None:
+        n_doc = 90 if tier == 'quick' else 800
+    docs = []
+    for c in cases:
+        if len(docs) >= n_doc:
+            break
+        if {'int_key', 'dup_id'} & set(c['flags']):
+            continue
+        try:
+            docs.append(gen_doc_case(rng, c))
+        except Exception:   # noqa
+            continue
+    return cases + docs
